@@ -3,8 +3,9 @@
 (* the observation operators of MetaObs.tla.                                    *)
 EXTENDS MetaObs, TraceBase
 
-VARIABLE ph      \* 0: apply the next event's action; 1: compare the state reached with the event
-TInit == Init /\ TBaseInit /\ ph = 0
+VARIABLES ph,    \* 0: apply the next event's action; 1: compare the state reached with the event
+          stmts  \* rows the loader has accepted so far (C18: one loader, several builds)
+TInit == Init /\ TBaseInit /\ ph = 0 /\ stmts = <<>>
 
 KwOf(e) == [n \in (DOMAIN e.kw) \ {"_"} |-> e.kw[n]]
 G2(e) == IF e.g >= 0 THEN e.g ELSE gen + Len(IdSlots(e.c))
@@ -19,6 +20,9 @@ Step(e) ==
       [] e.op = "Delete" -> Delete(e.x[1], e.x[2])
       [] e.op = "LoadBuild" -> LoadBuild(e.rows, IF e.g >= 0 THEN e.g ELSE gen)
       [] e.op = "NewRow" -> NewRow(e.row, IF e.g >= 0 THEN e.g ELSE gen)
+      [] e.op = "Input" -> UNCHANGED mvars /\ res' = "none"          \* the loader accumulates; built models do not change
+      [] e.op = "BuildFocus" -> LoadBuild(stmts, IF e.g >= 0 THEN e.g ELSE gen)
+      [] e.op = "Foreign" -> UNCHANGED mvars /\ res' = e.res           \* a call on another metamodel of the same loader
       [] e.op = "SaveLoad" -> SaveLoad(IF e.g >= 0 THEN e.g ELSE gen)
       [] e.op = "SetAttr" -> SetAttr(e.x[1], e.x[2], e.n, e.v)
       [] e.op = "DelAttr" -> IF Stored(e.x[1], e.x[2], e.n) THEN DelAttr(e.x[1], e.x[2], e.n)
@@ -112,7 +116,7 @@ SchemaOK(e) ==
 
 \* after the rejected creation of an instance with an attribute of unknown type only
 \* the outcome is fixed by the property (the trace ends there)
-Conform(e) == IF e.op = "NewUnknown" THEN (IF res = e.res THEN "" ELSE "res") ELSE FirstBad(<<
+Conform(e) == IF e.op = "NewUnknown" \/ "nocheck" \in DOMAIN e THEN (IF res = e.res THEN "" ELSE "res") ELSE FirstBad(<<
     <<"res", ResOK(e)>>,
     <<"observable", e.oerr = "">>,
     <<"pool", ProjPool = e.pool>>,
@@ -128,12 +132,13 @@ Conform(e) == IF e.op = "NewUnknown" THEN (IF res = e.res THEN "" ELSE "res") EL
 \* a call outside the domain of the property ends the validation of its trace
 Apply == /\ ph = 0 /\ TEnabled
          /\ Step(Ev)
+         /\ stmts' = IF Ev.op = "Input" THEN stmts \o Ev.rows ELSE stmts
          /\ IF res' = "OutOfDomain"
             THEN ph' = 0 /\ l' = TLen + 1 /\ tid' = tid /\ bad' = "" /\ PrintT(<<"DONE", tid>>)
             ELSE IF Admissible(Ev) THEN ph' = 1 /\ UNCHANGED tvars
                  ELSE ph' = 0 /\ Advance("admissible", <<>>)
 
-Check == /\ ph = 1 /\ UNCHANGED vars /\ ph' = 0
+Check == /\ ph = 1 /\ UNCHANGED <<vars, stmts>> /\ ph' = 0
          /\ LET b == Conform(Ev) IN
             Advance(b, IF b = "query" THEN FirstBadObs(Ev) ELSE <<res, ProjPool, ProjNav, ProjAttr>>)
 
